@@ -33,6 +33,12 @@ Spec run (exact Fractions, independent of the model's correctness):
     (`earlier_result_overwritten`) and still an exact primal-dual certificate (`earlier_result_certificate`).
     Argument forms (int64, float32, Fortran-ordered, strided, NumPy-scalar options, lists) must give the
     float64 answer (`argument_form`); minmax likewise.
+  * `solvetab float`: `solve_tableau` called directly as a public entry point on caller-built canonical
+    tableaux (arbitrary lexicographic block, both `skip_aux`, caps 0..10^6): status, num_iter, final
+    basis and final tableau bit for bit.  `mmguard rat`: minmax's pivot row (first argmax of column 0),
+    the tie guard `minmaxUniqueMax` judged on A itself, `minmaxLexOK = minmaxUniqueMax`, and a replay of
+    the inner simplex run with cycle detection (`minmax_cycle`, `minmax_status`).  Malformed stream: empty
+    / ragged matrices, over-long basis — code raises, model answers `bad-op`.
   * termination: `lpcycle rat` replays Phase 2 with a record of the bases visited; a recurring basis
     (the exact run cycles) is a spec failure `lex_cycle`; `lexStartOK` (hypothesis of the theorem
     `linprog_terminates_lex`) is counted, status 1 under `lexStartOK` is a spec failure.
@@ -578,7 +584,33 @@ def minmax_cases(ctx, A, cases, tol, integer, tag):
                               % (mv, float(v)), {"A": [[str(e) for e in r] for r in A], "v": float(v)})
                 return "value differs"
             return None
+        # the tie guard of the theorems minmax_value_certified / minmax_guard_iff: pivrow = first argmax of
+        # column 0, `uniq` = the maximum is attained once; judged here on A itself (exact)
+        col0 = [Aq[i][0] for i in range(m)]
+        pyrow = col0.index(max(col0))
+        pyuniq = sum(1 for e in col0 if e == max(col0)) == 1
+
+        def cmp_guard(mo, im):
+            d = parse_model(mo)
+            if d["cycled"] == "1":
+                ctx.spec_fail("minmax_cycle", "the exact model of minmax's simplex run revisits a basis",
+                              {"A": [[str(e) for e in r] for r in A], "model": mo})
+                return "model cycles"
+            if d["st"] != "0":
+                ctx.spec_fail("minmax_status", "the exact simplex run inside minmax ends with status %s (minmax ignores "
+                              "it)" % d["st"], {"A": [[str(e) for e in r] for r in A], "model": mo})
+                return "model status"
+            if int(d["pivrow"]) != pyrow:
+                return "pivrow is not the first maximiser of column 0"
+            if (d["uniq"] == "1") != pyuniq:
+                return "minmaxUniqueMax disagrees with the matrix"
+            if d["lexok"] != d["uniq"]:
+                return "minmaxLexOK != minmaxUniqueMax (theorem minmax_guard_iff)"
+            ctx.count("minmax:column-0-maximum-unique" if pyuniq else "minmax:column-0-maximum-tied(lex-negative start)")
+            return None
         enc = lambda r: ",".join(rat(e) for e in r)
+        cases.append(Case("C04 mmguard rat m=%d n=%d A=%s maxiter=1000000 fea=0 piv=0 diff=0" % (
+            m, n, ";".join(enc(r) for r in A)), "guard", nontrivial=not pyuniq, cmp=cmp_guard, tag=tag + "-guard"))
         cases.append(Case("C04 minmax rat m=%d n=%d A=%s maxiter=1000000 fea=0 piv=0 diff=0" % (
             m, n, ";".join(enc(r) for r in A)), "v", nontrivial=not pure, cmp=cmp_rat, tag=tag + "-rat"))
 
@@ -646,6 +678,34 @@ def kernel_cases(ctx, cases, count):
             _pivoting(P, c, int(row))
             cases.append(Case("C04 pivot float T=%s c=%d r=%d" % (fxm(Tn), c, int(row)), fxm(P),
                               nontrivial=True, tag="pivot"))
+    # solve_tableau as a public entry point: caller-built canonical tableaux (unit basic columns, arbitrary
+    # lexicographic block incl. lex-negative rows, rhs >= 0 with zeros), both skip_aux values, small caps
+    from quantecon.optimize.linprog_simplex import solve_tableau
+    for _ in range(count // 3):
+        L = R.randint(1, 4)
+        nb = R.randint(1, 6)
+        rows = []
+        for i in range(L):
+            rows.append([1.0 if j == i else 0.0 for j in range(L)] + [float(rint(R, -3, 3, 0.2)) for _ in range(nb)] +
+                        [float(R.randint(-2, 2)) if j != i else float(R.choice([1, 1, -1, 2])) for j in range(L)] +
+                        [float(R.choice([0, 0, 1, 2, 3]))])
+        rows.append([0.0] * L + [float(rint(R, -3, 3, 0.2)) for _ in range(nb)] + [0.0] * L + [0.0])
+        Tn = np.array(rows)
+        basis = np.arange(L, dtype=np.int_)
+        skip = R.random() < 0.5
+        cap = R.choice([0, 1, 2, 5, 50, 10 ** 6])
+        Tw, bw = Tn.copy(), basis.copy()
+        suc, st, it = solve_tableau(Tw, bw, cap, skip, PivOptions(FEA_TOL, TOL_PIV, TOL_RATIO_DIFF))
+        ctx.count("solve_tableau:status=%d" % int(st))
+        if bool(suc) != (int(st) == 0):
+            ctx.spec_fail("success_flag", "solve_tableau: success=%s with status=%d" % (suc, st), {"T": Tn.tolist()})
+        if int(it) > cap:
+            ctx.spec_fail("iteration_cap", "solve_tableau: num_iter=%d > max_iter=%d" % (it, cap), {"T": Tn.tolist()})
+        cases.append(Case("C04 solvetab float T=%s basis=%s skip=%d maxiter=%d fea=%s piv=%s diff=%s" % (
+            fxm(Tn), ints(basis), int(skip), cap, fx(FEA_TOL), fx(TOL_PIV), fx(TOL_RATIO_DIFF)),
+            "st=%d it=%d basis=%s T=%s" % (int(st), int(it), ints(bw), fxm(Tw)), nontrivial=int(it) > 1,
+            tag="solve_tableau"))
+
     # _initialize_tableau
     ctx_np = ctx.np_rng()
     for _ in range(count // 2):
@@ -965,3 +1025,26 @@ def run(ctx):
     argform_cases(ctx, ctx.n(25, 300))
 
     ctx.run_cases(cases)
+
+    # malformed stream: empty payoff matrices — the code raises ValueError (A.min() of an empty array), the
+    # model refuses the request (`bad-op`); neither side may invent an answer
+    from quantecon.optimize.minmax import minmax as _mm
+    bad_lines, bad_code = [], []
+    for shp in [(0, 2), (2, 0), (0, 0), (0, 1)]:
+        try:
+            _mm(np.empty(shp))
+            bad_code.append("answered")
+        except ValueError:
+            bad_code.append("ERR:ValueError")
+        bad_lines.append("C04 minmax float m=%d n=%d A=- maxiter=1000000 fea=%s piv=%s diff=%s" % (
+            shp[0], shp[1], fx(FEA_TOL), fx(TOL_PIV), fx(TOL_RATIO_DIFF)))
+    bad_lines.append("C04 mmguard rat m=2 n=2 A=1,2;3 maxiter=10 fea=0 piv=0 diff=0")     # ragged
+    bad_code.append("ERR:ValueError")
+    bad_lines.append("C04 solvetab rat T=1,0,1;0,0,0 basis=0,1 skip=0 maxiter=5 fea=0 piv=0 diff=0")   # basis too long
+    bad_code.append("ERR:ValueError")
+    for line, code, mo in zip(bad_lines, bad_code, ctx.driver(bad_lines)):
+        ctx.evaluations += 1
+        ctx.count("malformed:%s/%s" % (code, mo))
+        if (mo == "bad-op") != code.startswith("ERR"):
+            ctx.mismatches.append({"request": line, "code": code, "model": mo, "why": "malformed request: one side "
+                                   "answers, the other refuses"})
